@@ -206,20 +206,14 @@ KNOWN = [
   '{ getHuman { name @skip(if: true) name } }', None, None),
  ("KF-C01-19", "op.directiveOnFragment", "directives on inline fragments and fragment spreads are dropped when the fragment is unfolded",
   '{ getHuman { ... @include(if: false) { name } nick } }', None, None),
- ("KF-C01-20", "op.variablePositionsDiffer", "a variable used at positions of different types is re-declared with the type of its last position",
-  'query($n: Int!) { a: count(min: $n) b: count(min: 1, max: $n) }', {"n": 3}, None),
  ("KF-C01-21", "op.nodeRoot", "node(id:) root: fields selected directly on Node are dropped",
   '{ node(id: "Human_1") { id } }', None, None),
  ("KF-C01-22", "op.nodeRoot", "node(id:) root: nested selections are not split across services",
   '{ node(id: "Human_1") { ... on Human { best { phone } } } }', None, None),
- ("KF-C01-23", "op.nodeRoot", "node(id:) root: __typename inside a fragment is routed to the internal pseudo service",
-  '{ node(id: "Human_1") { ... on Human { __typename name } } }', None, None),
  ("KF-C01-25", "op.helperLostToFragmentScrub", "a client-selected id is scrubbed when a fragment on the type does not repeat it",
   '{ getHumans { id ... on Human { phone } } }', None, None),
  ("KF-C01-26", "op.helperOnlyInsideSubtypeFragment", "id/__typename selected only inside a subtype fragment suppresses the helper for the other member types",
   '{ getBeings { name age ... on Planet { id } } }', None, "if"),
- ("KF-C01-27", "op.rootTypename", "root __typename is routed to the internal pseudo service and sent downstream",
-  '{ __typename getHumans { name } }', None, None),
  ("KF-C01-28", "op.interfaceSubtypeFragmentCrossService", "interface field spread over services with a subtype fragment and no direct id embeds node(id:$id) in the parent step",
   '{ getBeings { name ... on Planet { age } } }', None, "if"),
  ("KF-C01-29", "op.interfaceNestedSelection", "selections nested below an interface-typed field are not split across services",
@@ -368,9 +362,26 @@ _SUBOP = {"query": "subscription { animalAdded { name owner { name phone } } }"}
 CASES["regress/KF-C17-1.json"] = {"property": "C17", "signature": "payload-mismatch", "case": {"world": world(), "config": {"planner": "cached", "ttl_ns": 3600000000000}, "conns": 1,
     "subs": [{"conn": 0, "id": "s1", "op": _SUBOP, "field": "animalAdded"}, {"conn": 0, "id": "s2", "op": _SUBOP, "field": "animalAdded"}],
     "events": [{"sub": 0, "value": {"__type": "Animal", "name": "rex", "owner": "Human_1"}}, {"sub": 1, "value": {"__type": "Animal", "name": "tom", "owner": "Human_2"}}]}}
+def _subworld():
+    w = json.loads(json.dumps(world()))
+    w["services"][1]["sdl"] = w["services"][1]["sdl"].replace("  animalAdded: Animal!\n", "  animalAdded: Animal!\n  animalNamed(prefix: String!, max: Int): Animal!\n")
+    w["union_sdl"] = w["union_sdl"].replace("  animalAdded: Animal!\n", "  animalAdded: Animal!\n  animalNamed(prefix: String!, max: Int): Animal!\n")
+    assert "animalNamed" in w["services"][1]["sdl"] and "animalNamed" in w["union_sdl"]
+    return w
+_SUBOP2 = {"query": 'subscription($p: String! = "re", $m: Int = 3) { animalNamed(prefix: $p, max: $m) { name owner { name phone } } }'}
+CASES["regress/KF-C17-2.json"] = {"property": "C17", "signature": "root-subquery", "case": {"world": _subworld(), "config": {}, "conns": 1,
+    "subs": [{"conn": 0, "id": "s1", "op": _SUBOP2, "field": "animalNamed"}],
+    "events": [{"sub": 0, "value": {"__type": "Animal", "name": "rex", "owner": "Human_1"}}, {"sub": 0, "value": {"__type": "Animal", "name": "tom", "owner": "Human_2"}}]}}
 CASES["regress/KF-C01-10.json"] = exec_case("C01", "gateway-errors", 'query($s: Boolean!) { getHumans { name @skip(if: $s) phone @include(if: $s) } }', {"s": False})
 CASES["regress/KF-C01-11.json"] = exec_case("C01", "data-mismatch", 'query($p: String = "zz") { getHumans { name(prefix: $p) } }', {})
 CASES["regress/KF-C01-11b.json"] = exec_case("C01", "data-mismatch", 'query($n: Int! = 2, $m: Int = 7) { a: count(min: $n, max: $m) getAnimals { owner { name(prefix: "q") } } }', {"m": None})
+CASES["regress/KF-C01-20.json"] = exec_case("C01", "gateway-errors", 'query($n: Int!) { a: count(min: $n) b: count(min: 1, max: $n) }', {"n": 3})
+CASES["regress/KF-C01-20b.json"] = exec_case("C01", "gateway-errors", 'query($n: Int = 4) { a: count(min: $n) b: count(min: 1, max: $n) getHumans { phone } }', {})
+CASES["regress/KF-C01-23.json"] = exec_case("C01", "data-mismatch", '{ node(id: "Human_1") { ... on Human { __typename name } } }')
+CASES["regress/KF-C01-23b.json"] = exec_case("C01", "data-mismatch", '{ node(id: "Human_1") { ... on Human { t: __typename phone name } } }')
+CASES["regress/KF-C01-27.json"] = exec_case("C01", "gateway-errors", '{ __typename getHumans { name } }')
+CASES["regress/KF-C01-27b.json"] = exec_case("C01", "gateway-errors", '{ t: __typename }')
+CASES["regress/KF-C01-27c.json"] = exec_case("C01", "data-mismatch", '{ __schema { queryType { name } } getHumans { name phone } m: __type(name: "Human") { kind name } }')
 CASES["regress/KF-C01-31.json"] = exec_case("C01", "data-mismatch", '{ a: getAnimals { owner { ...F } } b: getHuman { ...F } } fragment F on Human { best { phone } }')
 
 if __name__ == "__main__":
